@@ -19,7 +19,7 @@ fn level(t: Tier) -> Level {
         assumptions: vec![
             "state = canonical snapshot of the whole table (every public field of every row, ages in ms under the frozen clock) + reference CPR slots as history variable; transition = one run of the real reader thread on the restored table; de-duplicated on (state, history variable)".into(),
             "oracle = one-step refinement from the implementation's own pre-state: carried parameters take the reference value (or {blank, previous} when the frame has no valid value), parameters the format does not carry stay bit-identical, all other rows stay bit-identical; idempotence probe on every transition that updates an existing row".into(),
-            "traces_validated_against_impl counts explored transitions: every one is an execution of spawn_reader_thread/read_lines on real bytes (no separate model to replay); snapshot(restore(s)) == s is asserted on every state".into(),
+            "traces_validated_against_impl counts explored transitions: every one is an execution of spawn_reader_thread/read_lines on real bytes (no separate model to replay); snapshot(restore(s)) == s is asserted on every state; every tick-free history at the depth bound (and of length 2) is additionally fed as ONE continuous stream and must reach the table the step-by-step exploration reached".into(),
             "DF18 value effects, TC5-8 track/position, TC20-22 status are unconstrained (DESIGN section 4)".into(),
         ],
     }
@@ -36,6 +36,7 @@ fn gate(p: &Partial, _t: Tier) -> Result<(), String> {
     super::need(p, "step:update-existing-row", 1000)?;
     super::need(p, "step:other-rows-present", 1000)?;
     super::need(p, "probe:idempotence", 1000)?;
+    super::need(p, "whole-run-conformance", 10_000)?;
     super::need(p, "oracle:5,0:must", 1)?;
     Ok(())
 }
@@ -58,6 +59,23 @@ fn run_model(ctx: &mut Ctx, opts: &[&str], naircraft: usize, depth: usize) {
         let complaints = oracle.judge(ctx, &cfg, st);
         ctx.out.traces_validated += 1;
         rowmodel::report(ctx, "C11", &mname, &cfg, &actions, st, complaints, json!({"naircraft": naircraft, "depth": depth}));
+        // leaves: the whole tick-free history in one continuous run must reach the same table
+        if st.path.len() == depth || st.path.len() == 2 {
+            if !st.path.iter().any(|&i| matches!(actions[i].act, crate::engine::explore::Act::Tick(_))) {
+                ctx.count("whole-run-conformance");
+                if let Some((o, got)) = crate::engine::explore::whole_run_matches(&cfg, &[], &actions, st.path, st.post) {
+                    let names = crate::engine::explore::path_names(&actions, st.path);
+                    let path = st.path.to_vec();
+                    let d = got.iter().zip(st.post.iter()).filter(|(a, b)| a != b).map(|(a, b)| crate::snap::diff_fields(b, a).join("; ")).collect::<Vec<_>>().join(" | ");
+                    ctx.violation(
+                        &format!("C11/{mname}/history-in-one-run/{}", cfg.label()),
+                        &names.join(" > "),
+                        || format!("[{}] fed as one stream ({}) gives a different table than the same frames applied one by one: {d} ({} vs {} rows)", names.join(" > "), o.label(), got.len(), st.post.len()),
+                        || json!({"model": mname, "cfg": cfg.opts, "path": path, "extra": {"naircraft": naircraft, "depth": depth, "whole_run": true}}),
+                    );
+                }
+            }
+        }
     });
     ctx.bound(&format!("{mname} [{}]", cfg.label()), format!("depth {depth}, {} actions", actions.len()));
 }
@@ -91,6 +109,15 @@ fn replay(ctx: &mut Ctx, case: &Value) {
     let model = Model { cfg: &cfg, actions: &actions, depth, init: vec![], aux0: Slots::default() };
     let mname = format!("ROW{n}d{depth}");
     replay_path(ctx, &model, &path, rowmodel::aux_step, |ctx, st| {
+        if case.pointer("/extra/whole_run").is_some() {
+            if let Some((o, got)) = crate::engine::explore::whole_run_matches(&cfg, &[], &actions, st.path, st.post) {
+                crate::run::say(&format!("  one continuous run: {} , {} rows; step by step: {} rows; identical: false", o.label(), got.len(), st.post.len()));
+                ctx.violation("C11/history-in-one-run", "replay", || "continuous run differs from step-by-step".into(), || case.clone());
+            } else {
+                crate::run::say("  one continuous run gives the same table as step by step");
+            }
+            return;
+        }
         let complaints = oracle.judge(ctx, &cfg, st);
         for (s, m) in &complaints {
             crate::run::say(&format!("  oracle [{s}]: {m}"));
